@@ -9,7 +9,7 @@ RULE = ("Three quarters of the programs are removal-race programs, one quarter r
         "access by any thread to a freed node, freed bucket array (order/chunk: arena; mmap: PROT_NONE fault) or destroyed table. Non-trivial: two "
         "removal attempts on one node overlapped, or a node was freed while other threads were still running operations. distinct = distinct case text.")
 ASSUMPTIONS = G.E1_ASSUMPTIONS + ["bounded: <=4 threads, <=7 ops per thread"]
-EXAMPLES = {"quick": 150, "thorough": 3000}
+EXAMPLES = {"quick": 240, "thorough": 3000}
 example = L.make_example(["owner", "owner", "owner", "resize"], faults=("pthread_create_eagain",))
 judge = L.make_judge(lambda text, res: G.flag(res, 2) or (G.flag(res, 7) and G.flag(res, 0)))
 confirm = L.confirm
